@@ -198,10 +198,22 @@ func c04Chains(c *ctx) {
 			}
 			cur, _ = safeSolar(y, 1+c.rng.Intn(12), 1+c.rng.Intn(31), h, mi, se)
 		}
+		cycle := 0
+		if k%40 == 7 {
+			// 400 and 800 years after the days around the 1582 gap: the chain opens with whole Gregorian cycles back
+			st := [][]int{{1982, 10, 1}, {1982, 10, 5}, {1982, 10, 10}, {1982, 10, 14}, {1982, 10, 15}, {2382, 10, 7}, {2382, 10, 12}}[c.rng.Intn(7)]
+			h, mi, se := hms(c.rng.Intn(86400))
+			cur, _ = safeSolar(st[0], st[1], st[2], h, mi, se)
+			cycle = (st[0] - 1582) / 400
+		}
 		c.emit(obj{"ev": "C04Start", "at": sol(cur), "k": k})
 		var undo []int // pending inverse day steps (additivity / undo patterns)
 		for i := 0; i < steps; i++ {
 			op := []string{"NextDay", "NextDay", "NextDay", "NextHour", "NextMonth", "NextYear", "JdRoundTrip"}[c.rng.Intn(7)]
+			forced := 0
+			if cycle > 0 && i == 0 {
+				op, forced = "NextDay", -146097*cycle
+			}
 			sign := 1
 			if c.rng.Intn(2) == 0 {
 				sign = -1
@@ -247,6 +259,9 @@ func c04Chains(c *ctx) {
 				}
 			}
 			n *= sign
+			if forced != 0 {
+				n = forced
+			}
 			var r *calendar.Solar
 			try(func() { cur.GetJulianDay() }) // a caller that has already asked the start for its Julian Day
 			p, _ := try(func() {
